@@ -482,7 +482,11 @@ def main(ck: Check):
             if kind == "console":
                 cmds.append(ConsoleText(text=name))
             else:
-                cmds += parse_dsl_to_operations(canonical_line(l))
+                try:
+                    cmds += parse_dsl_to_operations(canonical_line(l))
+                except Exception as e:   # a line in canonical layout must parse: a failing input, not a crash
+                    ck.add_failing({"kind": "canonical-line-rejected", "text": canonical_line(l),
+                                    "error": f"{type(e).__name__}: {str(e)[:200]}"})
         meta = rand_meta(rng)
         text, dumped = render_plan(meta, cmds)
         plan_cases.append((meta, cmds, text, dumped))
